@@ -17,6 +17,7 @@ CONSTANTS
   MaxHeight = 3
   MsgMaxHeight = 4
   MaxRecv = 1000000
+  WithOutsider = TRUE
   PropShift = 1
   MaxSteps = 30
 INIT MBTInit
